@@ -22,6 +22,7 @@ let parse_obj (idx : int) (w : string) : Objects.obj =
   | 'b' -> Objects.OBarrier (nat_of_int (int_of_string (String.sub w 1 (String.length w - 1))), Datatypes.O, [], [], [])
   | 'o' | 'O' -> Objects.OOnce (Objects.OnNone, false, nat_of_int (idx + 1))
   | 'z' -> Objects.OScope (Datatypes.O, Datatypes.O, false)
+  | 'q' -> Objects.OCell (Stdlib.List.concat (Stdlib.List.init 4 (fun _ -> [n_of_int 0; n_of_int 1; n_of_int 0])), [])
   | 'k' ->
     (match String.split_on_char ':' (String.sub w 1 (String.length w - 1)) with
      | [init; d] -> Objects.OKey (n_of_string init, (if d = "-" then None else Some (nat_of_int (int_of_string d))))
@@ -102,6 +103,12 @@ let parse_op (w : string) : Prog.op =
              | [o; b] -> Prog.PCallOnce (nat_of_int (int_of_string o), nat_of_int (int_of_string b))
              | _ -> failwith "bad co")
   | "ic" -> Prog.PIsCompleted (num_after w 2)
+  | "qn" | "qp" | "qd" ->
+    (match Stdlib.List.map int_of_string (String.split_on_char '.' (String.sub w 2 (String.length w - 2))) with
+     | [q; slot; o; n] when pre = "qn" -> Prog.PAcqNew (nat_of_int q, nat_of_int slot, nat_of_int o, n_of_int n)
+     | [q; slot; o] when pre = "qp" -> Prog.PAcqPoll (nat_of_int q, nat_of_int slot, nat_of_int o)
+     | [q; slot; o] when pre = "qd" -> Prog.PAcqDrop (nat_of_int q, nat_of_int slot, nat_of_int o)
+     | _ -> failwith "bad acquire-slot op")
   | "lw" -> (match String.split_on_char '.' (String.sub w 2 (String.length w - 2)) with
              | [k; v] -> Prog.PTlsWith (nat_of_int (int_of_string k), n_of_string v)
              | _ -> failwith "bad lw")
